@@ -52,6 +52,7 @@ static void c07_gen(Rng &rng, Plan &plan, bool thorough)
 	// a later Block whose header is well formed but whose chain the Block decoder's init refuses
 	if (rng.chance(120)) { plan.setp("art0_spoil_block", rng.range(2, 9)); plan.setp("art0_kind", 0); }
 	int corrupt = (int)rng.below(10);
+	if (corrupt >= 5 && !plan.hasp("art0_spoil_block") && rng.chance(400)) plan.setp("exact_out", 1);
 	if (corrupt < 4) gen_storage_faults(rng, plan, 2);
 	else if (corrupt == 4) { Op op("sfault"); op.set("kind", 4).set("pos", (int64_t)rng.below(1000000)); plan.ops.push_back(op); }
 
@@ -187,6 +188,7 @@ static void mt_decode(const Plan &plan, const Bytes &file, SimAlloc &al, MtRun &
 			if (in_each < 1) in_each = 1;
 			if (out_each < 1) out_each = 1;
 			bool gated = op.get("input_only_if_out_not_full") != 0;
+			bool exact_out = plan.p("exact_out", 0) != 0 && file_valid && finish;
 			bool out_was_full = false;
 			uint64_t guard = 0;
 			uint64_t guard_max = 40000 + 8 * (file.size() / in_each + (valid_plain_size + file.size() * 4) / out_each);
@@ -212,8 +214,12 @@ static void mt_decode(const Plan &plan, const Bytes &file, SimAlloc &al, MtRun &
 				if (!fair_started && sim_in_fair_phase()) fair_started = true;   // forced by the step budget
 				if (!fair_started) guard = 0;
 				size_t before = ss.out.size();
-				if (!one_call(in_n, out_each, a)) { over = true; break; }
-				out_was_full = ss.out.size() - before == out_each;
+				// a client that knows the uncompressed size offers exactly that much output space and
+				// none once it has everything; the decoder must still finish (verify, Index, Footer)
+				size_t out_n = out_each;
+				if (exact_out) out_n = std::min(out_each, valid_plain_size > ss.out.size() ? valid_plain_size - ss.out.size() : (size_t)0);
+				if (!one_call(in_n, out_n, a)) { over = true; break; }
+				out_was_full = out_n != 0 && ss.out.size() - before == out_n;
 				if (++guard > guard_max) {
 					res.error = fmt("no termination after %llu drain calls (in_left=%zu, last=%s)", (unsigned long long)guard, ss.in_left(), ret_name(ss.last));
 					res.error_cls = "liveness-calls";
